@@ -69,7 +69,10 @@ class NonSeekableText(io.TextIOBase):
         return self._s.readline(n)
 
 
-def render(prolog, role, variant):
+ENC = {"utf-8": ("utf-8", "UTF-8"), "utf-16": ("utf-16", "UTF-16"), "latin-1": ("latin-1", "ISO-8859-1")}
+
+
+def render(prolog, role, variant, encoding="utf-8"):
     """-> document text or None when the combination cannot be written (two external subsets)."""
     ext = [k for k in prolog if k.startswith("extSubset")]
     if len(ext) > 1:
@@ -87,7 +90,8 @@ def render(prolog, role, variant):
         if ext:
             eid = ' SYSTEM "ext.dtd"' if ext[0] == "extSubsetSystem" else ' PUBLIC "-//V//T" "ext.dtd"'
         doctype = f"<!DOCTYPE {root}{eid}" + (f" [{inner}]" if inner else "") + ">"
-    head = '<?xml version="1.0" encoding="UTF-8"?>' if variant % 2 else ""
+    # UTF-8 and UTF-16 (with its byte order mark) need no XML declaration, any other encoding does
+    head = f'<?xml version="1.0" encoding="{ENC[encoding][1]}"?>' if (variant % 2 or encoding == "latin-1") else ""
     pad = ("<!-- " + "x" * 70000 + " -->") if variant % 5 == 4 else ""     # a prolog larger than one buffer
     return head + misc + pad + doctype + body
 
@@ -100,8 +104,8 @@ def base_for(channel, tmp):
     return None
 
 
-def source_for(channel, text, tmp, name):
-    data = text.encode("utf-8")
+def source_for(channel, text, tmp, name, encoding="utf-8"):
+    data = text.encode(ENC[encoding][0])
     channel = channel.split("@")[0]
     if channel == "text":
         return text
@@ -125,7 +129,7 @@ def source_for(channel, text, tmp, name):
     if channel == "fileurl":
         return "file://" + path
     url = c12.REMOTE + "/" + name
-    c12.REMOTE_FILES[url.lower()] = text
+    c12.REMOTE_FILES[url.lower()] = data
     return url
 
 
@@ -136,7 +140,7 @@ def known(channel, exc, text, XMLResourceError):
         return None
     if channel == "textstream":
         return "F-C13-a"
-    if channel in ("rawstream", "bufstream") and len(text.encode("utf-8")) > 64 * 1024:
+    if channel in ("rawstream", "bufstream") and len(text) > 64 * 1024:
         return "F-C13-b"
     return None
 
@@ -158,12 +162,15 @@ def judge(job):
         with open(os.path.join(tmp, "ext.dtd"), "w") as f:
             f.write('<!ENTITY fromext "EXT">')
         for role in ("instance", "schema", "included"):
-            text = render(rec["prolog"], "instance" if role == "instance" else "schema", idx)
+            enc = rec.get("encoding", "utf-8")
+            text = render(rec["prolog"], "instance" if role == "instance" else "schema", idx, enc)
             if text is None:
                 continue
             for channel in CHANNELS[rec["locality"]]:
                 if role == "included" and channel not in ("path", "fileurl", "http"):
                     continue
+                if enc != "utf-8" and channel.split("@")[0] in ("text", "stringio", "textstream"):
+                    continue        # characters have no encoding (and may not declare one)
                 n += 1
                 c12.REMOTE_FILES.clear()
                 del c12._events[:]
@@ -172,17 +179,17 @@ def judge(job):
                     with warnings.catch_warnings():
                         warnings.simplefilter("ignore")
                         if role == "instance":
-                            res = xmlschema.XMLResource(source_for(channel, text, tmp, "doc.xml"),
+                            res = xmlschema.XMLResource(source_for(channel, text, tmp, "doc.xml", enc),
                                                         base_url=base_for(channel, tmp),
                                                         defuse=rec["defuse"], allow="all")
                             shape = tree_shape(res.root)
                         elif role == "schema":
-                            s = xmlschema.XMLSchema(source_for(channel, text, tmp, "main.xsd"),
+                            s = xmlschema.XMLSchema(source_for(channel, text, tmp, "main.xsd", enc),
                                                     base_url=base_for(channel, tmp),
                                                     defuse=rec["defuse"], allow="all")
                             shape = ("schema", sorted(s.elements))
                         else:
-                            loc = source_for(channel, text, tmp, "inc.xsd")
+                            loc = source_for(channel, text, tmp, "inc.xsd", enc)
                             main = (f'<xs:schema xmlns:xs="{cm.XS}"><xs:include schemaLocation="{loc}"/>'
                                     f'</xs:schema>')
                             s = xmlschema.XMLSchema(main, defuse=rec["defuse"], allow="all", base_url=tmp)
@@ -215,7 +222,7 @@ def judge(job):
                                 known(channel, exc, text, XMLResourceError)))
                     continue
                 if role == "instance":
-                    want = tree_shape(ET.fromstring(text.encode("utf-8")))
+                    want = tree_shape(ET.fromstring(text.encode(ENC[enc][0])))
                     if shape != want:
                         out.append((rec, where, text, f"tree {shape} differs from the plain parse {want}", None))
                 elif shape != ("schema", ["r"]):
@@ -242,7 +249,8 @@ def run(ctx: Ctx):
     ctx.rule = ("defuse mode (4) x locality (3) x every prolog of <= MaxItems items out of 9 kinds (internal / "
                 "external / parameter / unparsed entity, external subset SYSTEM / PUBLIC, harmless "
                 "declaration, comment, PI) as enumerated by TLC x every channel of the locality x role "
-                "(instance, main schema, included schema); XML declaration and a 70 kB prolog alternate")
+                "(instance, main schema, included schema) x encoding of the bytes (UTF-8, UTF-16 with byte order mark, "
+                "ISO-8859-1; byte channels only); XML declaration and a 70 kB prolog alternate")
     ctx.assumptions += ["external entities are declared but not referenced (expat never loads them)",
                         "remote sources are served by a stub opener"]
 
